@@ -10,9 +10,24 @@ pub const PLACEHOLDER: &str = "PATH NOT FILLED BY VFS LAYER";
 pub const INNER_TOKENS: &[&str] = &["ALTROOT_", "BESIDE_", "LAYERDIR_", ".whiteout", "_wo'", "/dev/shm", "vsim-", ".scratch"];
 
 pub fn check_error(e: &ErrInfo, op: &Op) -> Option<(String, String)> {
+    check_error_opt(e, op, false)
+}
+
+/// `os_text_exempt`: the text of an operating-system / runtime I/O error is not rust-vfs's (async-std
+/// puts the host path of the failing call into its messages); everything before it still counts
+pub fn check_error_opt(e: &ErrInfo, op: &Op, os_text_exempt: bool) -> Option<(String, String)> {
     if e.io_only {
         return None;
     }
+    let e = &if os_text_exempt {
+        let mut c = e.clone();
+        if let Some(k) = c.display.find("IO error: ") {
+            c.display.truncate(k + 10);
+        }
+        c
+    } else {
+        e.clone()
+    };
     if e.path == PLACEHOLDER || e.display.contains(PLACEHOLDER) {
         return Some(("placeholder-path".into(), format!("error path not filled: {}", e.display)));
     }
@@ -34,6 +49,101 @@ pub fn check_error(e: &ErrInfo, op: &Op) -> Option<(String, String)> {
 }
 
 pub fn run(cfg: &RunCfg, trace: bool) -> RunOut {
+    let mut out = run_sync(cfg, trace);
+    // the async path type and adapters: same history, same rules for every error they return
+    if out.violations.is_empty() && out.harness_error.is_none() && cfg.seed % 3 == 0 && !has_emb(&cfg.specs[0]) {
+        if let Some((key, detail, step)) = async_mirror(cfg, &mut out) {
+            out.violations.push(Violation { property: cfg.property.clone(), key, detail, step });
+        }
+    }
+    out
+}
+
+fn has_emb(s: &crate::stack::Spec) -> bool {
+    use crate::stack::Spec;
+    match s {
+        Spec::Emb => true,
+        Spec::Mem { .. } | Spec::Phys { .. } => false,
+        Spec::Alt { inner, .. } => has_emb(inner),
+        Spec::Ovl { layers } => layers.iter().any(has_emb),
+        Spec::OvlSub { base, .. } => has_emb(base),
+    }
+}
+
+fn async_mirror(cfg: &RunCfg, out: &mut RunOut) -> Option<(String, String, usize)> {
+    use crate::asyncsim::*;
+    use std::sync::atomic::Ordering;
+    let rt = tokio::runtime::Builder::new_current_thread().build().ok()?;
+    let _guard = rt.enter();
+    let ab = abuild(&cfg.specs[0], crate::rng::mix(cfg.order_seed, 0), cfg.permute, crate::rng::mix(cfg.seed, 0xC12A), 20).ok()?;
+    out.count("probe.c12.async_runs");
+    let shape = format!("{}/async", cfg.specs[0].shape());
+    let mut ax = AExec { root: ab.root.clone(), slots: Default::default() };
+    let mut world = World { m: vec![cfg.specs[0].view()], w: Default::default() };
+    for (idx, op) in cfg.ops.iter().enumerate() {
+        let i = idx + 1;
+        let before = world.clone();
+        let want = world.apply(op);
+        let faulted = cfg.fault.as_ref().map(|p| p.op_index == idx).unwrap_or(false);
+        ab.ctl.on.store(true, Ordering::SeqCst);
+        if faulted {
+            ab.ctl.calls.store(0, Ordering::SeqCst);
+            ab.ctl.sticky.store(cfg.fault.as_ref().unwrap().sticky, Ordering::SeqCst);
+            ab.ctl.fail_at.store(cfg.fault.as_ref().unwrap().k, Ordering::SeqCst);
+        }
+        let fired0 = ab.ctl.faults_fired.load(Ordering::SeqCst);
+        let mut st = PollStats::default();
+        let got = ax.exec(op, &mut st);
+        ab.ctl.fail_at.store(0, Ordering::SeqCst);
+        ab.ctl.on.store(false, Ordering::SeqCst);
+        let tripped = ab.ctl.faults_fired.load(Ordering::SeqCst) > fired0;
+        let mut errs: Vec<ErrInfo> = vec![];
+        match &got {
+            Res::Err(e) => errs.push(e.clone()),
+            Res::Ok(Out::Walk(items)) => {
+                for it in items {
+                    if let Err(e) = it {
+                        errs.push(e.clone());
+                    }
+                }
+            }
+            Res::Panic(_) => return None,
+            _ => {}
+        }
+        let tcl = op_tclass(&before, op);
+        for e in &errs {
+            out.count("probe.c12.async_errors_inspected");
+            if let Some((k, d)) = check_error_opt(e, op, true) {
+                return Some((format!("C12|{}|{}|{}|{}{}", shape, op.kind(), tcl, k, if tripped { "|under-injected-failure" } else { "" }), format!("async port, step {} {:?}{}: {}", i, op, if tripped { " (one underlying call failed with an injected I/O error)" } else { "" }, d), i));
+            }
+        }
+        if tripped {
+            out.count("probe.c12.async_step_with_injected_failure");
+            return None;
+        }
+        if matches!(op, Op::SetTime(..)) {
+            continue;
+        }
+        if matches!(want, Want::Unspec) {
+            return None;
+        }
+        if let Want::Err(classes) = &want {
+            if !classes.is_empty() {
+                if let Res::Err(e) = &got {
+                    if !classes.contains(&e.class) {
+                        return Some((format!("C12|{}|{}|{}|want=Err{:?}|got=Err({:?})", shape, op.kind(), tcl, classes, e.class), format!("async port, step {} {:?}: wrong error class: {}", i, op, e.display), i));
+                    }
+                }
+            }
+        }
+        if judge(&want, &got).is_some() {
+            return None; // sync/async outcome differences are C15's business
+        }
+    }
+    None
+}
+
+fn run_sync(cfg: &RunCfg, trace: bool) -> RunOut {
     // is creation time supported at the top? (PhysicalFS does not implement set_creation_time)
     let top_phys_like = match &cfg.specs[0] {
         crate::stack::Spec::Phys { .. } => true,
